@@ -165,13 +165,59 @@ static void str_case(uint64_t i, void *ctx)
     if (strpbrk(s, ":/@?")) mc_nontrivial();
     mc_outcome(mc_hash_str(t1));
 }
+/* ---- part C: a port without a host (protocol + path with the port filled from the service database, or a bare path whose
+ * port is set afterwards): unparse supplies "localhost"; the text it builds must parse back to the components the object then has */
+static const char *PH_PROTO[] = { "http", "tcp", "zz" }, *PH_PATH[] = { "/p", "/", "/p/q" }, *PH_Q[] = { NULL, "q" };
+#define NPH (3ULL * 3 * 2 * 2 * NLK)
+static void ph_text(uint64_t i, char *b, size_t n, int *lk, int *setter)
+{
+    *lk = (int) (i % NLK); i /= NLK; *setter = (int) (i % 2); i /= 2;
+    const char *pr = PH_PROTO[i % 3]; i /= 3; const char *pa = PH_PATH[i % 3]; i /= 3; const char *q = PH_Q[i % 2];
+    size_t o = 0;
+    if (!*setter) o += (size_t) snprintf(b, n, "%s:", pr);
+    o += (size_t) snprintf(b + o, n - o, "%s", pa);
+    if (q) snprintf(b + o, n - o, "?%s", q);
+}
+static void ph_desc(uint64_t i, void *ctx, char *b, size_t n) { char t[80]; int lk, st; (void) ctx; ph_text(i, t, sizeof t, &lk, &st); snprintf(b, n, "parse \"%s\"%s (lookups: %s), unparse, parse the text", t, st ? ", set_port(\"8\")" : "", LKN[lk]); }
+static void ph_case(uint64_t i, void *ctx)
+{
+    char text[80]; int lk, st; (void) ctx; ph_text(i, text, sizeof text, &lk, &st);
+    const char *shape = st ? "bare path + set_port" : LKN[lk];
+    mc_set_shape(shape);
+    g_lk = lk; g_lookups = 0; static char w[20]; g_word = NULL;
+    if (!st) { const char *c = strchr(text, ':'); memcpy(w, text, (size_t) (c - text)); w[c - text] = 0; g_word = w; }
+    spif_url_t u = parse(text, 0xA5);
+    if (!u) { FAIL("spif_url_new_from_ptr", "model:return", shape, "returned NULL"); return; }
+    if (st) spif_url_set_port(u, spif_str_new_from_ptr((spif_charptr_t) "8"));
+    int had_port = u->port != NULL, had_host = u->host != NULL;
+    if (!spif_url_unparse(u)) FAIL("spif_url_unparse", "model:return", shape, "unparse returned FALSE");
+    char t1[200]; snprintf(t1, sizeof t1, "%s", SPIF_STR(u)->s ? (char *) SPIF_STR(u)->s : "");
+    const char *c1[7]; components(u, c1);
+    g_word = c1[0];
+    spif_url_t v = parse(t1, 0x5A);
+    if (!v) FAIL("spif_url_new_from_ptr", "model:return", shape, "re-parse returned NULL");
+    else {
+        const char *c2[7]; components(v, c2);
+        for (int k = 0; k < 7; k++) if (!same(c1[k], c2[k])) { FAIL("spif_url_unparse", "model:round-trip", shape, "the object has %s %s%s%s after unparse, but its text \"%s\" parses to %s %s%s%s", CNAME[k], c1[k] ? "\"" : "", c1[k] ? c1[k] : "absent", c1[k] ? "\"" : "", t1,
+                                                             CNAME[k], c2[k] ? "\"" : "", c2[k] ? c2[k] : "absent", c2[k] ? "\"" : ""); break; }
+        spif_url_unparse(v);
+        const char *t2 = SPIF_STR(v)->s ? (char *) SPIF_STR(v)->s : "";
+        if (strcmp(t1, t2)) FAIL("spif_url_unparse", "model:canonical-text-not-stable", shape, "unparse gives \"%s\"; parsing that text and unparsing again gives \"%s\"", t1, t2);
+        spif_url_del(v);
+    }
+    spif_url_del(u);
+    if (had_port && !had_host) mc_nontrivial();
+    mc_outcome(mc_hash_str(t1));
+}
 int main(int argc, char **argv)
 {
     mc_init("C14", argc, argv);
     int N = (int) mc_arg_int("N", mc_thorough() ? 8 : 5);
     mc_info("alphabet", "component tuples proto{-,http,tcp,zz,''} x //{-,//} x user{-,u} x passwd{-,p} x host{h,h.x,10.0.0.1,bare path} x port{-,8} x path{-,/,/p,/p@q:r} x query{-,q,a?b} x 5 lookup outcomes; "
-            "all strings of length <= %d over {a : / @ ? .} x 5 lookup outcomes; parser stack pre-filled with 0xA5/0x5A", N);
+            "all strings of length <= %d over {a : / @ ? .} x 5 lookup outcomes; parser stack pre-filled with 0xA5/0x5A; "
+            "port without host: proto{http,tcp,zz}:path{/p,/,/p/q}[?q] x 5 lookup outcomes, and the same bare paths with set_port(8)", N);
     mc_e2_level("tuples", 1, NTUP, tup_case, tup_desc, NULL);
+    mc_e2_level("port_without_host", 1, NPH, ph_case, ph_desc, NULL);
     for (g_len = 0; g_len <= N; g_len++)
         if (!mc_e2_level("strings", g_len, mc_words_of_len(6, g_len) * NLK, str_case, str_desc, NULL)) break;
     return mc_finish();
